@@ -262,6 +262,7 @@ def quiet_env() -> None:
     os.environ.setdefault("TF_ENABLE_ONEDNN_OPTS", "0")
     os.environ.setdefault("TQDM_DISABLE", "1")
     os.environ.setdefault("PYTHONWARNINGS", "ignore")
+    os.environ["RUST_BACKTRACE"] = "0"
 
 
 def _silence_tqdm() -> None:
